@@ -670,6 +670,58 @@ mod n {
         );
     }
 
+    // ---- C11 / C09: net height = gross height minus the thickness of the FIRST covering element in model order
+    // (the documented rule of Space::height_net: own roofs / ceilings and floors of the space above given from the
+    // other side are both covering elements)
+    #[test]
+    fn n_c11_height_net() {
+        drive("C11.height_net", "Space::height_net / EnergyProps volumes: lower space covered by {own roof 0.10 m, slab of the upper space 0.30 m given from above, both in either order, none}; a side wall and a foreign roof placed before them", |c| {
+            let cover = c.pick(5); // 0 none, 1 roof only, 2 slab only, 3 roof then slab, 4 slab then roof
+            let decoys_first = c.flag();
+            let mut m = empty_model();
+            m.spaces.push(space(0xA0, true, SpaceType::CONDITIONED, 1.0, 3.0));
+            m.spaces.push(space(0xA1, true, SpaceType::CONDITIONED, 1.0, 2.5));
+            m.cons.materials.push(material(0xE0, 0.5));
+            m.cons.wallcons.push(wallcons(0xC1, &[(0xE0, 0.10)]));
+            m.cons.wallcons.push(wallcons(0xC3, &[(0xE0, 0.30)]));
+            m.cons.wallcons.push(wallcons(0xC4, &[(0xE0, 0.40)]));
+            let floor = wall(1, BoundaryType::GROUND, uid(0xA0), None, uid(0xC3), 180.0, 0.0, rect(5.0, 4.0), None);
+            let roof = wall(2, BoundaryType::EXTERIOR, uid(0xA0), None, uid(0xC1), 0.0, 0.0, rect(1.0, 4.0), None);
+            let slab = wall(3, BoundaryType::INTERIOR, uid(0xA1), Some(uid(0xA0)), uid(0xC3), 180.0, 0.0, rect(4.0, 4.0), None);
+            // decoys: a side wall of the space, the roof of the UPPER space, a floor of the lower space seen from itself
+            let side = wall(4, BoundaryType::EXTERIOR, uid(0xA0), None, uid(0xC4), 90.0, 0.0, rect(5.0, 3.0), None);
+            let upper_roof = wall(5, BoundaryType::EXTERIOR, uid(0xA1), None, uid(0xC4), 0.0, 0.0, rect(4.0, 4.0), None);
+            if decoys_first {
+                m.walls.push(side.clone());
+                m.walls.push(upper_roof.clone());
+            }
+            m.walls.push(floor);
+            let want_thickness = match cover {
+                0 => 0.0,
+                1 => { m.walls.push(roof); 0.10 }
+                2 => { m.walls.push(slab); 0.30 }
+                3 => { m.walls.push(roof); m.walls.push(slab); 0.10 }
+                _ => { m.walls.push(slab); m.walls.push(roof); 0.30 }
+            };
+            if !decoys_first {
+                m.walls.push(side);
+                m.walls.push(upper_roof);
+            }
+            c.note(format!("cover#{} decoys_first {}", cover, decoys_first));
+            let h = m.spaces[0].height_net(&m.walls, &m.cons);
+            c.check("C11.height_net.first_covering", approx(h, 3.0 - want_thickness, 1e-6, 1e-5), || format!("height_net {} want {}", h, 3.0 - want_thickness));
+            let hu = m.spaces[1].height_net(&m.walls, &m.cons);
+            c.check("C11.height_net.upper", approx(hu, 2.5 - 0.40, 1e-6, 1e-5), || format!("upper space height_net {} want 2.1", hu));
+            let p = energy::EnergyProps::from(&m);
+            // the upper space's floor is the slab (its own BOTTOM wall, 4 x 4): without the slab it has no floor area
+            let upper_area = if cover >= 2 { 16.0 } else { 0.0 };
+            let vn = 20.0 * (3.0 - want_thickness as f64) + upper_area * 2.1;
+            c.check("C11.vol_net", approx64(p.global.vol_env_net, vn, 1e-5, 0.011), || format!("vol_env_net {} want {}", p.global.vol_env_net, vn));
+            c.nontrivial(format!("{} {}", cover, decoys_first));
+            c.sample(|| format!("cover#{} decoys_first {} -> height_net {}", cover, decoys_first, h));
+        });
+    }
+
     // ---- C11: scaling all lengths by s -----------------------------------------------------------------
     fn scaled_model(s: f32, in1: bool, m0: f32, kind1: SpaceType) -> Model {
         let mut m = empty_model();
